@@ -474,7 +474,7 @@ def replay(w):
 
 TECHNIQUE = "Lean 4 proof: invariants of the handler machine model that rule out its failure points (entries[-1], empty element stack) for EVERY event sequence + result-shape and bozo-pairing theorems on a model of parse()'s result assembly + correspondence of both models + grammar / mutation / JSON / binary fuzzing with crash-site identity"
 LEVEL_TEXT = ("Kernel-checked: on M-mixin (stage 1) inentry_has_entry (every reachable state with inentry set has a last entry: the entries[-1] of _get_context cannot raise), "
-              "run_total (mrun never gets stuck on structural / handler-less vocabulary: every event sequence, however unbalanced, yields a state); on M-api shape_always / "
+              "step_total (a step never gets stuck on structural / handler-less vocabulary: every event, however unbalanced the arrangement, yields a state); on M-api shape_always / "
               "shape_nonempty / bozo_iff_exception (for every combination of stage outcomes the assembled result has the promised keys and bozo is set exactly when an exception is attached).")
 LEVEL_NOTE = ("Trusted: Lean kernel + standard axioms; library exception contracts; the dedicated extension handlers are outside the theorems -- the fuzzer covers them and every crash "
               "site found is either fixed in /repo or listed as a known finding keyed by (exception type, innermost feedparser function).")
